@@ -9,6 +9,8 @@ open CC CC.Arr
 /-- header and inner array share one allocator triple (what `cc_stack_new_conf` sets up) -/
 def Coh (s : Stack) : Prop := s.v.triple = s.triple
 
+instance (s : Stack) : Decidable s.Coh := by unfold Coh; infer_instance
+
 /-- `cc_stack_new_conf`: the header is allocated first and released again when the inner array
 constructor fails (invalid capacity or refusal); on success the stack owns three blocks of its triple -/
 theorem new_spec (cap : Nat) (grow : Nat → Nat) (exGe : Nat → Bool) (m : Mem) (t : Triple := .conf) :
